@@ -949,3 +949,214 @@ func SourcePath(addr ssa.Value) string {
 	}
 	return PathOf(addr)
 }
+
+// ---------------------------------------------------------------------------
+// forward reachability of values (def-use closure)
+
+// ReachFrom computes the set of values that `from` may flow into: through address
+// arithmetic, loads, conversions, phis, stores into locals (then loads of those locals),
+// and calls accepted by `through` (argument -> result).
+func ReachFrom(from []ssa.Value, through func(call *ssa.Call, argIdx int) bool) map[ssa.Value]bool {
+	seen := map[ssa.Value]bool{}
+	var walk func(v ssa.Value)
+	walk = func(v ssa.Value) {
+		if v == nil || seen[v] {
+			return
+		}
+		seen[v] = true
+		for _, r := range Refs(v) {
+			switch x := r.(type) {
+			case *ssa.Store:
+				if x.Val == v {
+					if base := addrBase(x.Addr); base != nil {
+						walk(base)
+					}
+				}
+			case *ssa.Call:
+				if b, ok := x.Call.Value.(*ssa.Builtin); ok && b.Name() == "append" {
+					walk(x)
+					continue
+				}
+				if through != nil {
+					for i, a := range x.Call.Args {
+						if a == v && through(x, i) {
+							walk(x)
+						}
+					}
+				}
+			case *ssa.MapUpdate:
+				if x.Value == v || x.Key == v {
+					walk(x.Map)
+				}
+			case ssa.Value:
+				switch x.(type) {
+				case *ssa.FieldAddr, *ssa.IndexAddr, *ssa.Field, *ssa.Index, *ssa.UnOp, *ssa.Convert, *ssa.ChangeType, *ssa.Phi,
+					*ssa.Slice, *ssa.MakeInterface, *ssa.Extract, *ssa.BinOp, *ssa.ChangeInterface, *ssa.TypeAssert, *ssa.Lookup, *ssa.Range, *ssa.Next:
+					walk(x)
+				}
+			}
+		}
+	}
+	for _, f := range from {
+		walk(f)
+	}
+	return seen
+}
+
+// ---------------------------------------------------------------------------
+// finite-outcome evaluation of a decision
+
+// Abstract supplies values for chosen SSA values (e.g. the result of a Cmp call).
+type Abstract func(v ssa.Value) (int64, bool)
+
+// EvalInt evaluates an integer/boolean expression over abstract leaves (bool as 0/1).
+func EvalInt(v ssa.Value, abs Abstract) (int64, bool) {
+	if abs != nil {
+		if k, ok := abs(v); ok {
+			return k, true
+		}
+	}
+	if k, ok := ConstInt(v); ok {
+		if _, isC := v.(*ssa.Const); isC {
+			return k, true
+		}
+	}
+	if b, ok := ConstBool(v); ok {
+		if b {
+			return 1, true
+		}
+		return 0, true
+	}
+	switch x := v.(type) {
+	case *ssa.Convert:
+		return EvalInt(x.X, abs)
+	case *ssa.ChangeType:
+		return EvalInt(x.X, abs)
+	case *ssa.UnOp:
+		a, ok := EvalInt(x.X, abs)
+		if !ok {
+			return 0, false
+		}
+		switch x.Op {
+		case token.NOT:
+			return 1 - a, true
+		case token.SUB:
+			return -a, true
+		}
+	case *ssa.BinOp:
+		a, ok1 := EvalInt(x.X, abs)
+		b, ok2 := EvalInt(x.Y, abs)
+		if !ok1 || !ok2 {
+			return 0, false
+		}
+		bi := func(c bool) (int64, bool) {
+			if c {
+				return 1, true
+			}
+			return 0, true
+		}
+		switch x.Op {
+		case token.EQL:
+			return bi(a == b)
+		case token.NEQ:
+			return bi(a != b)
+		case token.LSS:
+			return bi(a < b)
+		case token.LEQ:
+			return bi(a <= b)
+		case token.GTR:
+			return bi(a > b)
+		case token.GEQ:
+			return bi(a >= b)
+		case token.ADD:
+			return a + b, true
+		case token.SUB:
+			return a - b, true
+		case token.MUL:
+			return a * b, true
+		case token.AND:
+			return a & b, true
+		case token.OR:
+			return a | b, true
+		}
+	}
+	return 0, false
+}
+
+// Walk follows the CFG of a loop-free decision from entry, deciding every If through abs.
+// It returns the terminating Return, the blocks visited, or a reason it could not decide.
+func Walk(fn *ssa.Function, abs Abstract) (*ssa.Return, []*ssa.BasicBlock, string) {
+	return WalkFrom(fn.Blocks[0], abs)
+}
+
+// WalkFrom is Walk starting at block b (the decision slice after the compared value is produced).
+func WalkFrom(b *ssa.BasicBlock, abs Abstract) (*ssa.Return, []*ssa.BasicBlock, string) {
+	var path []*ssa.BasicBlock
+	seen := map[*ssa.BasicBlock]bool{}
+	phiVals := map[ssa.Value]int64{}
+	abs2 := func(v ssa.Value) (int64, bool) {
+		if k, ok := phiVals[v]; ok {
+			return k, true
+		}
+		if abs != nil {
+			return abs(v)
+		}
+		return 0, false
+	}
+	enter := func(from, to *ssa.BasicBlock) {
+		idx := -1
+		for i, p := range to.Preds {
+			if p == from {
+				idx = i
+			}
+		}
+		if idx < 0 {
+			return
+		}
+		vals := map[ssa.Value]int64{}
+		for _, ins := range to.Instrs {
+			phi, ok := ins.(*ssa.Phi)
+			if !ok {
+				break
+			}
+			if k, ok := EvalInt(phi.Edges[idx], abs2); ok {
+				vals[phi] = k
+			} else {
+				delete(phiVals, phi)
+			}
+		}
+		for k, v := range vals {
+			phiVals[k] = v
+		}
+	}
+	for steps := 0; steps < 512; steps++ {
+		if seen[b] {
+			return nil, path, "loop on the decision path"
+		}
+		seen[b] = true
+		path = append(path, b)
+		switch x := b.Instrs[len(b.Instrs)-1].(type) {
+		case *ssa.Return:
+			return x, path, ""
+		case *ssa.Jump:
+			enter(b, b.Succs[0])
+			b = b.Succs[0]
+		case *ssa.If:
+			k, ok := EvalInt(x.Cond, abs2)
+			if !ok {
+				return nil, path, "branch on a value outside the abstract outcome: " + x.Cond.String()
+			}
+			nb := b.Succs[1]
+			if k != 0 {
+				nb = b.Succs[0]
+			}
+			enter(b, nb)
+			b = nb
+		case *ssa.Panic:
+			return nil, path, "panic"
+		default:
+			return nil, path, "unexpected terminator"
+		}
+	}
+	return nil, path, "too many steps"
+}
